@@ -112,6 +112,18 @@ def check_D0(ctx, facts):
         good = srcs == [['entries'], ['dead']]
         detail = 'diff returns (vector fed from other.%s, vector fed from other.%s)' % ('/'.join(srcs[0]) or '?', '/'.join(srcs[1]) or '?')
     ctx.ob('C05.D0', 'diff|lists', good, site(diff), detail + ('' if good else ' — expected (entries, dead): modifications and removals are mixed up at the source'))
+    # every path of diff walks both of the peer's maps (no early return that skips the per-key test)
+    rets = diff.return_blocks()
+    for b, t in sites_:
+        nb_ = None
+        for nb2, nt2 in dcalls:
+            if cname(nt2) == 'core::iter::traits::iterator::Iterator::next' and diff.dominates(nb2, b):
+                nb_ = nb2
+        idx = sites_.index((b, t))
+        good = nb_ is not None and diff.must_pass([0], [nb_], rets)
+        ctx.ob('C05.D0', 'diff|loop#%d-on-every-path' % idx, good, site(diff, t['cs']),
+               'every path through diff walks this map of the peer' if good else
+               'diff can return without walking this map of the peer (early return / fast path): keys the replica lacks are not listed, so repair never fetches them')
     ctx.ob('C05.D0', 'diff|read-only', diff.local_ty(1).startswith('&') and not diff.local_ty(1).startswith('&mut'), site(diff),
            'diff takes %s' % diff.local_ty(1))
 
